@@ -451,7 +451,7 @@ Section WithJ.
 
   Lemma carve_NS_unf ms c :
     carve_NS (O:=R_ops J) ms c =
-    filter (fun p => Rltb (fst p) c && Rltb c (snd p)) ms.
+    filter (fun p => Rleb (fst p) c && Rltb c (snd p)) ms.
   Proof. reflexivity. Qed.
 
   Lemma carve_BH_aux bh_lo : forall ms, tiling ms -> ms <> [] ->
@@ -571,18 +571,18 @@ Section WithJ.
   Qed.
 
   Lemma carve_NS_unique : forall ms c14 i, tiling ms ->
-    (i < length ms)%nat -> fst (nth i ms (0, 0)) < c14 < snd (nth i ms (0, 0)) ->
+    (i < length ms)%nat -> fst (nth i ms (0, 0)) <= c14 < snd (nth i ms (0, 0)) ->
     carve_NS (O:=R_ops J) ms c14 = [nth i ms (0, 0)].
   Proof.
     intros ms c i Ht. rewrite carve_NS_unf. revert i.
     induction ms as [|p r IH]; intros i Hi Hb; [simpl in Hi; lia|].
     pose proof (tiling_tail_above r p Ht) as HF.
     destruct i as [|i]; simpl nth in *.
-    - simpl filter. rewrite (proj2 (Rltb_true (fst p) c)) by lra.
+    - simpl filter. rewrite (proj2 (Rleb_true (fst p) c)) by lra.
       rewrite (proj2 (Rltb_true c (snd p))) by lra. simpl. f_equal.
       apply filter_none. intros x Hx.
       destruct (proj1 (Forall_forall _ _) HF x Hx) as [H1 H2].
-      rewrite (proj2 (Rltb_false (fst x) c)) by lra. reflexivity.
+      rewrite (proj2 (Rleb_false (fst x) c)) by lra. reflexivity.
     - simpl in Hi. assert (Hi' : (i < length r)%nat) by lia.
       destruct (proj1 (Forall_forall _ _) HF _ (nth_In r (0, 0) Hi')) as [H1 H2].
       simpl filter. rewrite (proj2 (Rltb_false c (snd p))) by lra.
@@ -590,18 +590,29 @@ Section WithJ.
       apply tiling_cons_iff in Ht. tauto.
   Qed.
 
-  Lemma carve_NS_edge_refuted : exists ms c14,
-    tiling ms /\ fst (hd (0, 0) ms) < c14 < snd (last ms (0, 0)) /\
-    carve_NS (O:=R_ops J) ms c14 = [].
+  (* a point of the tiled range lies in some (left-inclusive) bin *)
+  Lemma tiling_locate (m : R) : forall b, tiling b -> b <> [] ->
+    fst (hd (0, 0) b) <= m < snd (last b (0, 0)) ->
+    exists i, (i < length b)%nat /\ fst (nth i b (0, 0)) <= m < snd (nth i b (0, 0)).
   Proof.
-    exists [(1, 2); (2, 3)], 2. split; [|split].
-    - split.
-      + repeat constructor; simpl; lra.
-      + intros i Hi. simpl in Hi. destruct i as [|[|i]]; simpl; try lia. reflexivity.
-    - simpl. lra.
-    - rewrite carve_NS_unf. simpl.
-      rewrite (proj2 (Rltb_false 2 2)) by lra.
-      rewrite andb_false_r, andb_false_l. reflexivity.
+    induction b as [|p r IH]; intros Ht Hne Hm; [congruence|].
+    destruct (Rlt_dec m (snd p)) as [Hlt|Hnlt].
+    - exists 0%nat. simpl in *. split; [lia|lra].
+    - assert (Hr : r <> []) by (intros ->; simpl in Hm; lra).
+      rewrite last_cons_ne in Hm by exact Hr.
+      apply tiling_cons_iff in Ht. destruct Ht as [Hp [Hh Htr]].
+      specialize (Hh Hr).
+      destruct (IH Htr Hr ltac:(split; [rewrite <- Hh; lra|tauto])) as [i [Hi Hb]].
+      exists (S i). split; [simpl; lia|exact Hb].
+  Qed.
+
+  Lemma carve_NS_exists : forall ms c14, tiling ms -> ms <> [] ->
+    fst (hd (0, 0) ms) <= c14 < snd (last ms (0, 0)) ->
+    exists i, (i < length ms)%nat /\ carve_NS (O:=R_ops J) ms c14 = [nth i ms (0, 0)].
+  Proof.
+    intros ms c14 Ht Hne Hm.
+    destruct (tiling_locate c14 ms Ht Hne Hm) as [i [Hi Hb]].
+    exists i. split; [exact Hi|]. apply carve_NS_unique; assumption.
   Qed.
 End WithJ.
 
